@@ -126,9 +126,20 @@ def _cvc5_check(assertions, timeout_s=None) -> str:
     return res if res in ("sat", "unsat") else "unknown"
 
 
+#: seconds this process has spent in queries that ended `unknown`.  On the unchanged tree there are none; a changed tree can produce
+#: dozens (each costs the z3 budget plus the cvc5 budget).  Once the allowance is used up the remaining queries of the process get
+#: a short z3 budget and no second solver: the unit ends undecided (or violated) in minutes instead of a quarter of an hour.
+UNKNOWN_SPENT = [0.0]
+UNKNOWN_ALLOWANCE_S = float(os.environ.get("RXVC_UNKNOWN_ALLOWANCE_S", "45"))
+
+
 def check_sat(assertions, timeout_ms=None, use_cvc5=True):
     """Returns (verdict, model_or_None, backend). verdict in sat/unsat/unknown."""
     s = z3.Solver()
+    exhausted = UNKNOWN_SPENT[0] > UNKNOWN_ALLOWANCE_S
+    if exhausted:
+        timeout_ms, use_cvc5 = min(timeout_ms or Z3_TIMEOUT_MS, 2000), False
+    t_query = time.time()
     s.set("timeout", timeout_ms or Z3_TIMEOUT_MS)
     for a in BASE_AXIOMS:
         s.add(a)
@@ -148,6 +159,7 @@ def check_sat(assertions, timeout_ms=None, use_cvc5=True):
             return "unsat", None, "cvc5"
         if r2 == "sat":
             return "sat", None, "cvc5"
+    UNKNOWN_SPENT[0] += time.time() - t_query
     return "unknown", None, "none"
 
 
